@@ -50,28 +50,19 @@ func algCode(h int) int {
 	return sha2_256
 }
 
-// refJCSSimple canonicalizes a JSON-marshallable value whose strings need no escaping
-// beyond what encoding/json and RFC 8785 agree on and whose numbers are integers: members
-// sorted (ASCII names), no whitespace, no HTML escaping.
+// refJCSSimple canonicalizes a JSON-marshallable value with the harness's own RFC 8785 serializer (refJCS).
 func refJCSSimple(v interface{}) []byte {
 	raw, err := json.Marshal(v)
 	if err != nil {
 		panic(err)
 	}
 
-	dec := json.NewDecoder(bytes.NewReader(raw))
-	dec.UseNumber()
-
-	var g interface{}
-	if err := dec.Decode(&g); err != nil {
+	out, err := refJCSFromJSON(raw)
+	if err != nil {
 		panic(err)
 	}
 
-	var buf bytes.Buffer
-
-	writeJCSSimple(&buf, g)
-
-	return buf.Bytes()
+	return out
 }
 
 func writeJCSSimple(buf *bytes.Buffer, g interface{}) {
